@@ -114,13 +114,14 @@ def effect_harness(I: Interp) -> None:
                          "requests (wall clock): " + str("time()" in hsrc))
 
 
+NONDET_NAMES = {"random", "time", "os", "uuid", "secrets", "datetime", "hash", "id", "object"}
+
+
 def _derived(a: ast.expr) -> bool:
-    """argument expression mentions only self.seed / self.state / request / args / literals."""
-    for n in ast.walk(a):
-        if isinstance(n, ast.Name) and n.id not in ("self", "request", "args", "arg", "str",
-                                                    "seed"):
-            return False
-    return True
+    """the seed expression is built from self.seed / self.state / request / arguments, literals
+    and helper calls - it mentions no nondeterministic source (global random, clock, os, hash/id)"""
+    names = {n.id for n in ast.walk(a) if isinstance(n, ast.Name)}
+    return not (names & NONDET_NAMES)
 
 
 def vecu_seed_harness(I: Interp) -> None:
@@ -159,7 +160,8 @@ def vecu_seed_harness(I: Interp) -> None:
     if len(built) != 1:
         return
     a, k = built[0]
-    got = a[0] if a else k.get("seed")
+    k = dict(k)
+    got = a[0] if a else k.pop("seed", None)
     I.prove("V-server-seed-is-the-configured-seed(for-every-int,0-included)",
             got.t == seed.t if getattr(got, "t", None) is not None else z3.BoolVal(False))
     I.prove("V-no-draw-from-the-global-random-module", z3.BoolVal(drew["n"] == 0))
